@@ -1093,10 +1093,12 @@ def _streams_tokens(finfo, L, packpos, tag, top_id, substreams=True) -> Tokens:
     for k, f in enumerate(finfo):
         tk.num(len(f["packed"]), f"{tag}.PackInfo.size[{k}]")
     if L["pack_crc"]:
+        pdef = [True] * len(finfo) if L["pack_crc"] != "partial" else [k % 2 == 0 for k in range(len(finfo))]
         tk.id(K_CRC, tag + ".PackInfo.crc")
-        _alldef(tk, [True] * len(finfo), tag + ".PackInfo.crc", L["alldef_shortcut"])
+        _alldef(tk, pdef, tag + ".PackInfo.crc", L["alldef_shortcut"])
         for k, f in enumerate(finfo):
-            tk.u32(crc32(f["packed"]), f"{tag}.PackInfo.crc[{k}]")
+            if pdef[k]:
+                tk.u32(crc32(f["packed"]), f"{tag}.PackInfo.crc[{k}]")
     tk.id(K_END, tag + ".PackInfo.end")
     tk.id(K_UNPACKINFO, tag + ".UnpackInfo")
     tk.id(K_FOLDER, tag + ".UnpackInfo.folder")
@@ -1146,17 +1148,20 @@ def _streams_tokens(finfo, L, packpos, tag, top_id, substreams=True) -> Tokens:
             for k, f in enumerate(finfo):
                 for j, s in enumerate(f["sizes"][:-1]):
                     tk.num(s, f"{tag}.SubStreams.size[{k}][{j}]")
-        if L["crc"] in ("substream", "both"):
+        if L["crc"] in ("substream", "both", "partial"):
             need = []
             for k, f in enumerate(finfo):
                 if f["n"] == 1 and folder_crc:
                     continue
                 need.extend(f["crcs"])
-            if need:
+            # "partial": only every other substream carries a CRC (the Digests structure stores CRCs[NumDefined])
+            defined = [True] * len(need) if L["crc"] != "partial" else [j % 2 == 0 for j in range(len(need))]
+            if any(defined):
                 tk.id(K_CRC, tag + ".SubStreams.crc")
-                _alldef(tk, [True] * len(need), tag + ".SubStreams.crc", L["alldef_shortcut"])
+                _alldef(tk, defined, tag + ".SubStreams.crc", L["alldef_shortcut"])
                 for j, c in enumerate(need):
-                    tk.u32(c, f"{tag}.SubStreams.crc[{j}]")
+                    if defined[j]:
+                        tk.u32(c, f"{tag}.SubStreams.crc[{j}]")
         tk.id(K_END, tag + ".SubStreams.end")
     tk.id(K_END, tag + ".end")
     return tk
